@@ -238,6 +238,8 @@ def build_corpus():
     c['interest-params-empty'] = bytes(enc.make_interest('/tv/q', ip, b''))
     c['interest-signed'] = bytes(enc.make_interest('/tv/q', ip, b'pp', DigestSha256Signer(for_interest=True)))
     c['lp-nack'] = bytes(enc.make_network_nack(interest_t, 150))
+    # the Nack of an Interest that had been sent with a PIT token: both headers, in increasing type order
+    c['lp-token-nack-t'] = ts.tlv(0x64, ts.tlv(0x62, b'\x01\x02') + ts.tlv(0x0320, ts.tlv(0x0321, b'\x96')) + ts.tlv(0x50, interest_t))
     lp = enc.ndnlp_v2.LpPacket()
     lp.lp_packet = enc.ndnlp_v2.LpPacketValue()
     lp.lp_packet.pit_token = b'\x01\x02\x03\x04'
